@@ -620,8 +620,9 @@ impl Exec {
                 let ex = &mut *self;
                 catch_unwind(AssertUnwindSafe(|| match &mut arena {
                     AnyArena::A(x) => {
-                        // phase is unchanged since the call above: a MarkedArena must come back
-                        match x.finish_marking() {
+                        // nothing happened since the call above: the same call must hand out a
+                        // MarkedArena again
+                        match if forced { x.finish_marking() } else { x.mark_debt() } {
                             Some(m) => {
                                 m.finalize(|fc, root| body(ex, fc, Some(fc), a8, RootMode::Ro(root, None), ops, panic_at));
                                 true
@@ -629,7 +630,7 @@ impl Exec {
                             None => false,
                         }
                     }
-                    AnyArena::B(x) => match x.finish_marking() {
+                    AnyArena::B(x) => match if forced { x.finish_marking() } else { x.mark_debt() } {
                         Some(m) => {
                             m.finalize(|fc, root| body(ex, fc, Some(fc), a8, RootMode::Ro(&root.inner, Some(&root.extra)), ops, panic_at));
                             true
@@ -644,7 +645,7 @@ impl Exec {
                 Err(p) => (true, Some(obs::panic_message(&*p))),
             };
             if !got {
-                self.violate("C08", "marked-arena-missing", format!("{what}: finish_marking() on a Marked arena returned None"));
+                self.violate("C08", "marked-arena-missing", format!("{what}: the marking call returned a MarkedArena, the identical call repeated at once did not"));
             }
             self.callback_post(ai, &arena, pre, &what, panicked, false, true);
         }
